@@ -582,6 +582,9 @@ def check(run):
     run_cases(run, worker, cases)
     from props import C09_sym
     guarded(run, C09_sym.prove)
+    # TDVP-PS / PS2: every local problem handed to the local propagator is the integrator's (call by contract at expm_krylov / solve_ivp)
+    from props import C09_tdvp_sym
+    guarded(run, C09_tdvp_sym.prove, dts=(0.25, 0.0625))
     from props import C04_kernel
     guarded(run, C04_kernel.prove, only_updates=True)       # the renormalised-basis update of tdvp_ps2 (incl. the per-bond limit probe) in kernel-stub mode
     run.rule = ("models {spin+qn, electron-phonon, spin} with dense reference (dim <= 72/200) x 8 schemes x local solvers {krylov, RK45} x |H|dt in {0.1, 0.3, 1.0}; "
@@ -592,4 +595,7 @@ def check(run):
                 "contract": "|psi - expm(-iHt) psi0| <= 40 n (ivp_rtol |psi| + ivp_atol)  (exactness of projector splitting at full bond dimension)"})
     run.explanation = ("bounded only: every bound is derived from a theorem about the scheme (Taylor remainder, stage polynomial with the coefficients certified in C19, "
                        "exactness of PS/VMF on the full manifold, second order of CMF), not tuned; floating-point convergence cannot be proved by the VC generator.")
-    run.trusted += ["scipy.linalg.expm on the dense Hamiltonian", "cited lemmas: Taylor remainder, exactness of the projector-splitting integrator at full rank, Butcher's theorem"]
+    run.trusted += ["scipy.linalg.expm on the dense Hamiltonian", "cited lemmas: Taylor remainder, exactness of the projector-splitting integrator at full rank, Butcher's theorem",
+                    "cited lemma (Lubich-Oseledets 2014 / Haegeman et al. 2016): the composition of the exact flows of the projected one-site (two-site) problems forward and the "
+                    "zero-site (one-site) problems backward, swept symmetrically with half steps, is a second-order integrator on the manifold and exact at full bond dimension; "
+                    "Engine S decides that the code poses exactly these local problems, the kernels that solve them are C18's"]
